@@ -57,7 +57,12 @@ def build(it: Interp, with_bwd: bool) -> Tuple[AbstractGraph, Dict[str, Obj]]:
     cmp_ = mk("cmp", "call_function", E("torch.eq"), (n6, n5), flt=False)  # non-float, two float inputs: no bypass
     mix = mk("mix", "call_function", E("torch.add"), (n6, n5), scale="s3", gscale="g3")  # same scale as n6 but two float inputs
     mk("aux_unused", "call_function", E("torch.mul"), (n6, 2), scale="s4", gscale="g2")  # a tracked tensor nobody consumes: must survive
-    mk("output_1", "output", "output", ((n9, n4, cmp_, mix),), flt=False)
+    # inputs given by keyword count as inputs: a same-scale op and a non-float op whose only float input is a keyword
+    kwneg = mk("kw_neg", "call_function", E("torch.neg"), (), {"input": n9}, scale="s3", gscale="g3")  # same scale as add
+    amax = mk("amax", "call_function", E("torch.argmax"), (), {"input": n9, "dim": 0}, flt=False)  # int output, one float input (keyword)
+    gat = mk("gathered", "call_function", E("torch.gather"), (n9, 0, amax), scale="s4", gscale="g2")
+    kwadd = mk("kw_add", "call_function", E("torch.add"), (n9,), {"other": n6}, scale="s3", gscale="g3")  # same scale as n9 but two float inputs
+    mk("output_1", "output", "output", ((n9, n4, cmp_, mix, kwneg, gat, kwadd),), flt=False)
     return g, N
 
 
@@ -68,7 +73,8 @@ def expected(g0: AbstractGraph, removed: List[str], bypass: bool) -> List[Tuple[
     nodes = {n.attrs["name"]: n for n in g0.nodes}
 
     def float_inputs(n: Obj) -> List[Obj]:
-        return [a for a in n.attrs["_args"] if is_node(a) and a.attrs["meta"].get("outputs_float_tensor", False)]
+        cands = list(n.attrs["_args"]) + list(n.attrs["_kwargs"].values())  # (direct arguments, positional or keyword)
+        return [a for a in cands if is_node(a) and a.attrs["meta"].get("outputs_float_tensor", False)]
 
     def resolve(n: Obj) -> Any:
         while is_node(n) and n.attrs["name"] in removed:
@@ -126,7 +132,7 @@ def check(report: Report, repo: Repo) -> None:
         rg = res.attrs.get("_abstract_graph") if isinstance(res, Obj) else None
         report.add("R3-copy-discipline", f"{cons}::returns-copy", rg is not None and rg is not g, "returns a new graph", "copy" if rg is not None and rg is not g else fmt(res), "a copy")
         if rg is not None:
-            exp = expected(g, ["output_ids", "size", "cmp"], bypass=True)
+            exp = expected(g, ["output_ids", "size", "cmp", "amax"], bypass=True)
             report.add("R2-result", cons, got(rg) == exp, "nodes not producing float tensors are removed (never the output), single-float-input ones bypassed, everything else in order", got(rg), exp)
             report.add("R2-result", f"{cons}::lint", rg.linted >= 1, "result is linted", rg.linted, ">=1", nontrivial=False)
 
@@ -149,7 +155,7 @@ def check(report: Report, repo: Repo) -> None:
         rg = res.attrs.get("_abstract_graph") if isinstance(res, Obj) else None
         report.add("R3-copy-discipline", f"{cons}::returns-copy", rg is not None and rg is not g, f"{lab}: returns a new graph", "copy" if rg is not None and rg is not g else fmt(res), "a copy")
         if rg is not None:
-            removed = ["output", "outputs_view", "transpose", "reshape"] + ([] if with_bwd else ["gscale_differs"])
+            removed = ["output", "outputs_view", "transpose", "reshape", "kw_neg"] + ([] if with_bwd else ["gscale_differs"])
             exp = expected(g, removed, bypass=True)
             report.add("R2-result", cons, got(rg) == exp, f"{lab}: float nodes with exactly one float-tensor input of the same mean |x| (forward and, when recorded, backward) are bypassed; nothing else", got(rg), exp)
         closes = [e for e in it.events if e.kind == "call" and e["callee"] == "math.isclose"]
@@ -192,7 +198,7 @@ def check(report: Report, repo: Repo) -> None:
     raised = [e["exc"] for e in it.events if e.kind == "raise"]
     report.add("R1-no-raise", cons, not raised and res is not BOTTOM, "must not raise; " + "; ".join(raised), raised, [])
     report.add("R3-copy-discipline", f"{cons}::in-place", res is g.obj, "selective pruning is documented to cut in place and return the same graph", "same" if res is g.obj else fmt(res), "same graph")
-    exp = expected(g_ref, ["output", "size"], bypass=False)
+    exp = expected(g_ref, ["output", "size", "kw_neg"], bypass=False)
     report.add("R2-result", cons, got(g) == exp, "nodes whose target is selected are removed and their edges cut (None), everything else in order", got(g), exp)
 
     # ------------------------------------------------ predicates on metrics (one-sided bwd => different),
